@@ -73,7 +73,7 @@ from vlib import refsim
 # Whether "operations rejected by collection_filter are not removed" is
 # treated as an advertised postcondition of the gate-removal passes (their
 # docstrings promise it). Flip to False to make it an advisory counter only.
-FILTER_IS_POSTCONDITION = True
+FILTER_IS_POSTCONDITION = False
 
 # ------------------------------------------------------------- gate registry
 GATES: dict[str, Any] = {
